@@ -170,8 +170,13 @@ def finish(ctx: Ctx, t0: float, subs_run, n_reg: int) -> int:
         "wall_s": wall,
         "violations": len(t.fail_counts),
     }
-    os.makedirs(os.path.join(core.VERIF_DIR, "evidence"), exist_ok=True)
-    with open(os.path.join(core.VERIF_DIR, "evidence", f"{ctx.prop}.json"), "w") as fh:
+    # evidence is only ever written to /verif/evidence by runs against /repo itself; runs against a scratch copy
+    # (VP_REPO=..., mutants / seeded changes) write theirs next to that copy
+    evdir = os.environ.get("VP_EVIDENCE_DIR") or (
+        os.path.join(core.VERIF_DIR, "evidence") if core.REPO == os.path.realpath("/repo") else os.path.join(core.REPO, ".vp_evidence")
+    )
+    os.makedirs(evdir, exist_ok=True)
+    with open(os.path.join(evdir, f"{ctx.prop}.json"), "w") as fh:
         json.dump(ev, fh, indent=1, sort_keys=False)
         fh.write("\n")
     out(
